@@ -39,6 +39,9 @@ def canon : String → String
   | "addeq_i" => "add_i"
   | "subeq_i" => "sub_i"
   | "to_fixed_mk" => "to_fixed"
+  | "ref_add_i" => "add_i" | "ref_sub_i" => "sub_i" | "ref_rsub_i" => "rsub_i" | "ref_rdiv_i" => "rdiv_i"
+  | "ref_add_f" => "add_f" | "ref_sub_f" => "sub_f" | "ref_rsub_f" => "rsub_f" | "ref_mul_f" => "mul_f"
+  | "ref_div_f" => "div_f" | "ref_rdiv_f" => "rdiv_f"
   | "radd_d" => "add_d"
   | "rmul_d" => "mul_d"
   | "addeq_f" => "add_f"
